@@ -221,4 +221,26 @@ theorem result_discipline :
     resultUses = ["initGroupChain: save result assigned", "*groupChain.AddGroup: save result returned",
                   "*groupChain.removeFromCommonAncestor: remove result ignored"] := by decide
 
+/-! ### selection rule, header rewrite and fork switch: the source has the model's shape -/
+
+set_option maxRecDepth 8000 in
+/-- `AddGroup` overwrites `DismissHeight` with `CreateHeight + GetGroupWorkDuration()` (model:
+    `prepare`); `availableGroupsAt` walks the iterator, keeps a group iff `DismissHeight > h` (strict),
+    and at the first other group appends `GetGroupByHeight(0)` and breaks (model: `availWalk`);
+    `triggerOnChain` removes down to the ancestor once, then `AddGroup`s the fork's groups in height
+    order and stops at the first refusal (model: `forkSwitch` / `addAll`). -/
+theorem selection_and_switch_shape :
+    addHeaderRewrite = ["header.WorkHeight = header.CreateHeight + uint64(common.GROUP_Work_GAP)",
+                        "header.DismissHeight = header.CreateHeight + common.GetGroupWorkDuration()"] ∧
+    availableShape = ["for g := iter.Current(); g != nil; g = iter.MovePre()", "call iter.Current()",
+                      "call iter.MovePre()", "if g.Header.DismissHeight > h", "call append(gs, g)",
+                      "call chain.GetGroupByHeight(0)", "call append(gs, genesis)", "break", "return gs"] ∧
+    triggerOnChainShape = ["if fork.current == fork.header",
+                           "call groupChain.removeFromCommonAncestor(fork.getGroup(fork.header))",
+                           "call fork.getGroup(fork.header)",
+                           "for fork.current <= fork.latestGroup.GroupHeight",
+                           "call fork.getGroup(fork.current)", "if forkGroup == nil", "return false",
+                           "call groupChain.AddGroup(forkGroup)", "if err == nil", "continue",
+                           "return false", "return true"] := by decide
+
 end Rangers.Props.C19Facts
